@@ -81,6 +81,15 @@ type cliTuple struct {
 	reads  []string
 }
 
+// cliDigest: a payload variable bound to `h.Sum(nil)` and everything that was written into the
+// hash since the preceding `h.Reset()` (in source order): kind "file" = `attach(h, f)` with
+// `f, err := os.Open(*V)`, kind "literal" = `h.Write(p)` with `p := []byte(*V)`, V a declared
+// variable; anything else is kind "other" with the source text.
+type cliDigest struct {
+	varName string
+	feeds   [][2]string
+}
+
 type cliCommand struct {
 	file, fn, name       string
 	decls                []cliDecl
@@ -89,6 +98,7 @@ type cliCommand struct {
 	primary, output      string
 	deferClose           bool
 	commits, nilReturns  int
+	digests              []cliDigest
 	commitThenReturnNil  int
 	endsWithCommitReturn bool
 }
@@ -581,6 +591,99 @@ func cliFunc(src *source, fd *ast.FuncDecl, pkgs map[string]bool) (*cliCommand, 
 		}
 	}
 
+	// --- digests of secondary inputs: X := h.Sum(nil), h the hash handed to TryCache
+	hashVar := baseIdent(tc.Args[0])
+	if hashVar == "" {
+		return nil, src.errAt(tc, "TryCache: the hash must be a variable")
+	}
+	bindings := map[string]ast.Expr{} // single-assignment view: variable -> the call it is bound to
+	ast.Inspect(body, func(n ast.Node) bool {
+		if as, ok := n.(*ast.AssignStmt); ok && len(as.Rhs) == 1 && len(as.Lhs) >= 1 {
+			if id, ok := as.Lhs[0].(*ast.Ident); ok {
+				if _, dup := bindings[id.Name]; dup {
+					bindings[id.Name] = nil // bound more than once: not traced
+				} else {
+					bindings[id.Name] = as.Rhs[0]
+				}
+			}
+		}
+		return true
+	})
+	declOf := func(e ast.Expr) string { // *V with V declared
+		if st, ok := e.(*ast.StarExpr); ok {
+			if id, ok := st.X.(*ast.Ident); ok && declVar[id.Name] {
+				return id.Name
+			}
+		}
+		return ""
+	}
+	classify := func(kind string, e ast.Expr) [2]string {
+		if id, ok := e.(*ast.Ident); ok {
+			if call, ok := bindings[id.Name].(*ast.CallExpr); ok && len(call.Args) == 1 {
+				v := declOf(call.Args[0])
+				switch {
+				case kind == "file" && exprString(call.Fun) == "os.Open" && v != "":
+					return [2]string{"file", v}
+				case kind == "literal" && exprString(call.Fun) == "[]byte" && v != "":
+					return [2]string{"literal", v}
+				}
+			}
+		}
+		return [2]string{"other", exprString(e)}
+	}
+	type hashEvent struct {
+		pos  token.Pos
+		kind string // reset feed sum
+		feed [2]string
+		sum  string
+	}
+	var events []hashEvent
+	ast.Inspect(body, func(n ast.Node) bool {
+		switch v := n.(type) {
+		case *ast.AssignStmt:
+			if len(v.Rhs) == 1 && len(v.Lhs) == 1 && exprString(v.Rhs[0]) == hashVar+".Sum(nil)" {
+				events = append(events, hashEvent{pos: v.Pos(), kind: "sum", sum: baseIdent(v.Lhs[0])})
+			}
+		case *ast.CallExpr:
+			switch {
+			case exprString(v.Fun) == hashVar+".Reset" && len(v.Args) == 0:
+				events = append(events, hashEvent{pos: v.Pos(), kind: "reset"})
+			case exprString(v.Fun) == hashVar+".Write" && len(v.Args) == 1:
+				events = append(events, hashEvent{pos: v.Pos(), kind: "feed", feed: classify("literal", v.Args[0])})
+			case exprString(v.Fun) == "attach" && len(v.Args) == 2 && exprString(v.Args[0]) == hashVar:
+				events = append(events, hashEvent{pos: v.Pos(), kind: "feed", feed: classify("file", v.Args[1])})
+			}
+		}
+		return true
+	})
+	sort.Slice(events, func(i, j int) bool { return events[i].pos < events[j].pos })
+	var feeds [][2]string
+	for _, e := range events {
+		switch e.kind {
+		case "reset":
+			feeds = nil
+		case "feed":
+			feeds = append(feeds, e.feed)
+		case "sum":
+			c.digests = append(c.digests, cliDigest{e.sum, append([][2]string{}, feeds...)})
+		}
+	}
+	// any other use of the hash variable (passed elsewhere, other methods) is outside the shape
+	var hashErr error
+	ast.Inspect(body, func(n ast.Node) bool {
+		if sel, ok := n.(*ast.SelectorExpr); ok && exprString(sel.X) == hashVar {
+			switch sel.Sel.Name {
+			case "Reset", "Write", "Sum":
+			default:
+				hashErr = src.errAt(sel, "unexpected use of the hash: %s", exprString(sel))
+			}
+		}
+		return true
+	})
+	if hashErr != nil {
+		return nil, hashErr
+	}
+
 	// --- Commit / return nil
 	isCommit := func(st ast.Stmt) bool {
 		es, ok := st.(*ast.ExprStmt)
@@ -878,6 +981,11 @@ structure Command where
   payload : List Tuple
   /-- derived variables read by the payload: (name, declared variables they are computed from) -/
   derived : List (String × List String)
+  /-- payload variables bound to h.Sum(nil) (h = the hash handed to TryCache) with everything
+  written into the hash since the preceding h.Reset(): ("file", V) = attach(h, f) where
+  f, err := os.Open(*V); ("literal", V) = h.Write(p) where p := []byte(*V); V a declared
+  variable; ("other", source text) for anything else -/
+  digests : List (String × List (String × String))
   /-- first argument of newIODelegate: the primary input path -/
   primary : String
   /-- second argument of newIODelegate: the output path -/
@@ -924,6 +1032,18 @@ structure Command where
 				deps = strings.Split(d[1], ",")
 			}
 			fmt.Fprintf(&b, "(%s, %s)", leanStr(d[0]), leanStrList(deps))
+		}
+		b.WriteString("],\n")
+		b.WriteString("    digests := [")
+		for j, d := range c.digests {
+			if j > 0 {
+				b.WriteString(", ")
+			}
+			fs := make([]string, len(d.feeds))
+			for k, f := range d.feeds {
+				fs[k] = "(" + leanStr(f[0]) + ", " + leanStr(f[1]) + ")"
+			}
+			fmt.Fprintf(&b, "(%s, [%s])", leanStr(d.varName), strings.Join(fs, ", "))
 		}
 		b.WriteString("],\n")
 		fmt.Fprintf(&b, "    primary := %s, output := %s, deferClose := %v,\n", leanStr(c.primary), leanStr(c.output), c.deferClose)
